@@ -42,7 +42,7 @@ class QuantumGate(Box):
 
     def dagger(self):
         return QuantumGate(
-            self.name, len(self.dom), self.array,
+            self.name, len(self.dom), self.array, data=self.data,
             _dagger=None if self._dagger is None else not self._dagger)
 
 
